@@ -52,8 +52,63 @@ func (c config) fresh() *search.GraphIterator {
 	if c.pred == "none" {
 		return search.All(c.n, c.a, c.m)
 	}
-	pre, post := gx.PruneFuncs(c.pred, c.placement, nil)
+	pre, post := pruneFuncs(c.pred, c.placement)
 	return search.WithPruning(c.n, c.a, c.m, pre, post)
+}
+
+// Strongly pruning hereditary predicates, read off the DenseGraph directly (gx's predicates are
+// limited to 16 vertices): with them the search reaches n = 12..24 in a handful of graphs.
+var bigPreds = map[string]func(g *graph.DenseGraph) bool{
+	// some vertex has degree > 1 (the survivors are the matchings)
+	"maxdeg1": func(g *graph.DenseGraph) bool {
+		for _, d := range g.DegreeSequence {
+			if d > 1 {
+				return true
+			}
+		}
+		return false
+	},
+	// more than two edges
+	"edges2": func(g *graph.DenseGraph) bool { return g.NumberOfEdges > 2 },
+	// an induced path on three vertices (the survivors are the disjoint unions of cliques)
+	"cluster": func(g *graph.DenseGraph) bool {
+		n := g.NumberOfVertices
+		adj := func(u, v int) bool {
+			if u < v {
+				u, v = v, u
+			}
+			return g.Edges[u*(u-1)/2+v] > 0
+		}
+		for v := 0; v < n; v++ {
+			for a := 0; a < n; a++ {
+				if a == v || !adj(v, a) {
+					continue
+				}
+				for b := a + 1; b < n; b++ {
+					if b != v && adj(v, b) && !adj(a, b) {
+						return true
+					}
+				}
+			}
+		}
+		return false
+	},
+}
+
+func pruneFuncs(name, placement string) (pre, post func(*graph.DenseGraph) bool) {
+	f, ok := bigPreds[name]
+	if !ok {
+		return gx.PruneFuncs(name, placement, nil)
+	}
+	no := func(*graph.DenseGraph) bool { return false }
+	switch placement {
+	case "pre":
+		return f, no
+	case "post":
+		return no, f
+	default:
+		return f, f
+	}
 }
 
 // loadCount selects the kind of reader of the next Load; it is set from the case text at the start
@@ -92,7 +147,7 @@ func scribble(b []byte, kind uint32) {
 }
 
 func (c config) load(b []byte) *search.GraphIterator {
-	pre, post := gx.PruneFuncs(c.pred, c.placement, nil)
+	pre, post := pruneFuncs(c.pred, c.placement)
 	// a fresh copy of the bytes for every Load, overwritten as soon as Load has returned:
 	// the loaded iterator must not depend on its input any more
 	cp := append([]byte(nil), b...)
